@@ -159,6 +159,9 @@ def run(prog, rep):
                        sample={'reader': kind, 'function': short(f.id), 'first_byte': '0x%02x' % b, 'paths': len(per[b])} if b == 0xdb else None)
     rep.extra['abstract_paths_examined'] = n_paths
 
+    from rules import stream_window
+    stream_window.check(prog, rep, 'R2.6', floor=9)
+
     # ---------------------------------------------------------------- R2.5 end-guard agreement
     rep.rule('R2.5', 'array read scope: the comparison guarding the element fetch (LoadNextItem/CheckEnd) tests the same iterator against '
                      'the same end as IsEnd()', floor=2)
